@@ -1386,7 +1386,7 @@ var (
 	vfValURI    = []string{"/admin/secret", "/admin/x?role=admin", "/pub/../admin/y", "https://admin.example.com/admin/y?z=1", "/sec/data?b=2&a=1", "/h/z", "%zz", "", "?only=query", "/none/q", "/pub/w%20x?q=%20", "/pub/write?x=1&x=2", "/admin/1,2,3/delete?force=true", "/pub/a,b?ids=4,5&t=x", "/sec/x,/admin/y"} //nolint:gochecknoglobals
 	vfValPath   = []string{"/admin/secret", "/pub/x", "/sec/other", "/h/q", ""}                                                                                                                                                            //nolint:gochecknoglobals
 	vfValXFF    = []string{"127.0.0.1", "10.0.0.1, 192.168.0.1", "::1", "unknown", "203.0.113.7", "10.0.0.1,,", "198.51.100.1,198.51.100.2", ""}                                                                                           //nolint:gochecknoglobals
-	vfValFwd    = []string{"for=127.0.0.1", "for=10.0.0.1;proto=https;host=admin.example.com", "for=1.1.1.1, for=2.2.2.2", "by=3.3.3.3", "FOR=1.2.3.4", `for="[2001:db8::1]:4711"`, "proto=https;for=192.0.2.43;by=203.0.113.60", ""}      //nolint:gochecknoglobals
+	vfValFwd    = []string{"for=127.0.0.1", "for=10.0.0.1;proto=https;host=admin.example.com", "for=1.1.1.1, for=2.2.2.2", "by=3.3.3.3", "FOR=1.2.3.4", `for="[2001:db8::1]:4711"`, "proto=https;for=192.0.2.43;by=203.0.113.60", "proto=http; for=192.0.2.60", "for=192.0.2.61 ; proto=https", "by=203.0.113.60;  for=192.0.2.62", ""}      //nolint:gochecknoglobals
 )
 
 func vfCasing(rng *rand.Rand, name string) string {
